@@ -42,3 +42,11 @@ PROPS["C03"] = {"rules": ["R11"], "explanation": "wip", "assumptions": [], "trus
 PROPS["C06"] = {"rules": ["R09", "R10", "R11"], "explanation": "wip", "assumptions": [], "trusted": COMMON_TRUST}
 PROPS["C09"] = {"rules": ["R10", "R11"], "explanation": "wip", "assumptions": [], "trusted": COMMON_TRUST}
 PROPS["C20"] = {"rules": ["R09", "R10"], "explanation": "wip", "assumptions": [], "trusted": COMMON_TRUST}
+
+PROPS["C02"] = {"rules": ["R16"], "explanation": "wip", "assumptions": [], "trusted": COMMON_TRUST}
+PROPS["C11"] = {"rules": ["R16", "R17"], "explanation": "wip", "assumptions": [], "trusted": COMMON_TRUST}
+PROPS["C14"] = {"rules": ["R16", "R18"], "explanation": "wip", "assumptions": [], "trusted": COMMON_TRUST}
+PROPS["C16"] = {"rules": ["R17"], "explanation": "wip", "assumptions": [], "trusted": COMMON_TRUST}
+
+PROPS["C12"] = {"rules": ["R18", "R19"], "explanation": "wip", "assumptions": [], "trusted": COMMON_TRUST}
+PROPS["C13"] = {"rules": ["R19", "R18"], "explanation": "wip", "assumptions": [], "trusted": COMMON_TRUST}
